@@ -817,8 +817,9 @@ def per_iteration(m, f, stmts, is_event):
 
 def recording_loops_rule(m, rid):
     r = RuleResult(rid, "the loops that record declared entities and USE ... ONLY names in the scope's table are total: every iteration "
-                   "reaches the recording call, none leaves the loop early (path-sensitive, per loop body / per isinstance branch)")
-    r.floor = 3
+                   "reaches the recording call, none leaves the loop early (path-sensitive, per loop body / per isinstance branch); the "
+                   "loop over the declared entities is reached under the three confirmed conditions only")
+    r.floor = 4
     k = m.key("Type_Declaration_Stmt", F03)
     a = m.method(k, "add_to_symbol_table")
     if a is None:
@@ -837,6 +838,36 @@ def recording_loops_rule(m, rid):
         r.fail("add_to_symbol_table|iteration|%s" % "+".join(kinds), "Type_Declaration_Stmt.add_to_symbol_table: an iteration over the declared "
                "entities can end (%s) without add_data_symbol: a declared name is then missing from the table of the scope that declares "
                "it (it may be visible from an outer scope or a used module, but it is this scope's own entity)" % ", ".join(kinds), m.loc(a, loops[0]))
+    # ... and the loop is reached for every declaration of intrinsic type made inside a scope: the conditions in front of it are the
+    # three confirmed by hand (a declaration was matched, there is a current scope, the type is intrinsic); nothing else -- an
+    # attribute, the kind of entity -- filters what is recorded, and nothing leaves the function before the loop
+    ALLOWED_GUARDS = {"result", "result is not None", "table", "table is not None", "isinstance(result[0], Intrinsic_Type_Spec)",
+                      "table and isinstance(result[0], Intrinsic_Type_Spec)"}
+    r.instances += 1
+    P_ = A.parents(a.node)
+    loop0 = [n for n in A.body_nodes(a.node) if isinstance(n, ast.For)
+             and any(isinstance(c, ast.Call) and A.text(c.func).endswith("add_data_symbol") for c in ast.walk(n))][0]
+    extra = []
+    x = loop0
+    while x in P_ and P_[x] is not a.node:
+        p_ = P_[x]
+        if isinstance(p_, ast.If):
+            if x in p_.orelse:
+                extra.append((p_, "not (%s)" % A.text(p_.test)))
+            elif A.text(p_.test) not in ALLOWED_GUARDS:
+                extra.append((p_, A.text(p_.test)))
+        elif not isinstance(p_, (ast.FunctionDef,)):
+            extra.append((p_, type(p_).__name__))
+        x = p_
+    for n in A.body_nodes(a.node):
+        if isinstance(n, (ast.Return, ast.Raise)) and n.lineno < loop0.lineno:
+            extra.append((n, "an early `%s`" % A.text(n)[:30]))
+    r.ob(not extra, "add_to_symbol_table: the recording loop is reached whenever a declaration of intrinsic type is matched inside a scope")
+    if extra:
+        r.fail("add_to_symbol_table|filter|%s" % extra[0][1][:40], "Type_Declaration_Stmt.add_to_symbol_table records the declared entities only "
+               "under an additional condition (%s): declarations it filters out (by an attribute such as EXTERNAL, say) are missing "
+               "from the scope's table, so a reference to such a name that is also an intrinsic is taken for the intrinsic"
+               % extra[0][1][:80], m.loc(a, extra[0][0]))
     u = m.method(m.key("Use_Stmt", F03), "match")
     if u is None:
         r.error("Use_Stmt.match vanished")
@@ -1124,4 +1155,132 @@ def lifo_restore_rule(m, rid):
             r.fail("%s|lifo|%s" % (q, name), "%s hands back `%s` while `%s`, which was read after it, is still held: `%s` then ends up in "
                    "front of `%s` in the reader's queue, i.e. the stream is re-read in a different order (a comment lands inside or after "
                    "the statement that followed it)" % (q, name, top, top, name), m.loc(f, node))
+    return r
+
+
+# ------------------------------------------------------------------------------------------------
+# C09.R14: what the scope-owning block engine returned is final
+# ------------------------------------------------------------------------------------------------
+def engine_result_final_rule(m, rid):
+    """BlockBase.match opens the scoping region of a program unit and, on success, leaves it with the symbol table kept; on failure
+    (no match or an exception) it removes the table.  A matcher that receives a successful result and then turns it into a failure
+    -- raises, or returns something else -- leaves the table of the rejected unit behind: the failed parse is visible to the next."""
+    r = RuleResult(rid, "what the scope-owning block engine (BlockBase.match) returned is what its caller returns: after the call no "
+                        "matcher raises or returns another value, unless it removes the symbol table first (a rejected unit must "
+                        "not leave its table behind)")
+    r.floor = 30
+    for (p, q), f in sorted(m.funcs.items()):
+        if "/tests/" in p or "/two/" not in p.replace("\\", "/"):
+            continue
+        calls = [c for c in A.calls(f.node) if A.text(c.func) == "BlockBase.match"]
+        if not calls:
+            continue
+        P = A.parents(f.node)
+        for c in calls:
+            r.instances += 1
+            holder = P.get(c)
+            if isinstance(holder, ast.Return):
+                r.ob(True, "%s returns the engine's result directly" % q if r.obligations % 10 == 0 else None)
+                continue
+            if not (isinstance(holder, ast.Assign) and len(holder.targets) == 1 and isinstance(holder.targets[0], ast.Name)):
+                r.ob(False)
+                r.fail("%s|engine-result|unbound" % q, "%s uses the result of BlockBase.match in `%s`: it is neither returned nor bound to a "
+                       "name that is returned" % (q, A.text(holder)[:60]), m.loc(f, c))
+                continue
+            var = holder.targets[0].id
+            # the try statements whose body holds the call: their handlers run when the engine itself failed (it cleaned up)
+            own_handlers = set()
+            x = c
+            while x in P:
+                p_ = P[x]
+                if isinstance(p_, ast.Try) and any(x is b or any(x is y for y in ast.walk(b)) for b in p_.body):
+                    for h in p_.handlers:
+                        own_handlers.update(id(n) for n in ast.walk(h))
+                x = p_
+            bad = None
+            # the statements control can reach after the call: the rest of its block, then (unless that rest ends in a return or
+            # raise) the rest of the enclosing blocks
+            after = []
+            x = holder
+            while x in P and not isinstance(x, (ast.FunctionDef, ast.AsyncFunctionDef)):
+                blk = P[x]
+                rest = []
+                for field in ("body", "orelse", "finalbody"):
+                    b = getattr(blk, field, None)
+                    if isinstance(b, list) and x in b:
+                        rest = b[b.index(x) + 1:]
+                if isinstance(blk, ast.ExceptHandler) and x in blk.body:
+                    rest = blk.body[blk.body.index(x) + 1:]
+                after.extend(rest)
+                if any(isinstance(s_, (ast.Return, ast.Raise)) for s_ in rest):
+                    break
+                x = blk
+            for n in [y for s_ in after for y in ast.walk(s_)]:
+                if id(n) in own_handlers:
+                    continue
+                if isinstance(n, ast.Raise):
+                    bad = (n, "raises")
+                elif isinstance(n, ast.Return) and not (isinstance(n.value, ast.Name) and n.value.id == var):
+                    bad = (n, "returns `%s`" % (A.text(n.value) if n.value is not None else "None"))
+                elif isinstance(n, ast.Assign) and any(isinstance(t, ast.Name) and t.id == var for t in n.targets):
+                    bad = (n, "re-binds `%s`" % var)
+                if bad:
+                    # allowed when the table is removed before, in the same block
+                    blk = P.get(bad[0])
+                    sibs = []
+                    for field in ("body", "orelse", "finalbody"):
+                        b = getattr(blk, field, None)
+                        if isinstance(b, list) and bad[0] in b:
+                            sibs = b[:b.index(bad[0])]
+                    if any("SYMBOL_TABLES.remove(" in A.text(s_) for s_ in sibs):
+                        bad = None
+                        continue
+                    break
+            r.ob(bad is None, "%s returns `%s` unchanged" % (q, var))
+            if bad is not None:
+                r.fail("%s|engine-result|%s" % (q, bad[1].split(" ")[0]), "%s %s after BlockBase.match has returned: on success the engine has "
+                       "already left the scoping region and kept the unit's symbol table, so rejecting the unit now leaves that table "
+                       "behind -- a later parse of a unit of the same name sees the declarations of the rejected one" % (q, bad[1]),
+                       m.loc(f, bad[0]))
+    return r
+
+
+# ------------------------------------------------------------------------------------------------
+# the parser takes items as the reader is configured to deliver them
+# ------------------------------------------------------------------------------------------------
+READER_TAKERS = ("get_item", "next", "get_single_line", "get_next_line", "get_source_item", "_next")
+
+
+def _comment_override_sites(fnode):
+    out = []
+    for c in A.calls(fnode):
+        if isinstance(c.func, ast.Attribute) and c.func.attr in READER_TAKERS:
+            kw = [k for k in c.keywords if k.arg == "ignore_comments"]
+            pos = c.args[0] if (c.func.attr in ("get_item", "next", "_next") and c.args) else None
+            for v in [k.value for k in kw] + ([pos] if pos is not None else []):
+                if not (isinstance(v, ast.Constant) and v.value is None):
+                    out.append((c, A.text(v)))
+    return out
+
+
+def comment_option_owner_rule(m, rid):
+    r = RuleResult(rid, "whether comments are delivered is the reader's option: no parser code (fparser.two) takes an item from the reader "
+                        "with an ignore_comments argument of its own -- items skipped that way are gone, so with comments kept a "
+                        "matcher that peeks with ignore_comments=True silently drops the comments in front of the statement it peeks at")
+    sample = ast.parse("def match(reader):\n    item = reader.get_item(ignore_comments=True)\n    reader.put_item(item)\n").body[0]
+    if len(_comment_override_sites(sample)) != 1:
+        r.error("the detector no longer recognises its positive example")
+        return r
+    r.floor = 300
+    for (p, q), f in sorted(m.funcs.items()):
+        pp = p.replace("\\", "/")
+        if "/tests/" in pp or "/two/" not in pp:
+            continue
+        r.instances += 1
+        sites = _comment_override_sites(f.node)
+        r.ob(not sites, ("%s takes items as the reader delivers them" % q) if r.obligations % 100 == 0 else None)
+        for c, v in sites[:1]:
+            r.fail("%s|comment-option|%s" % (q, A.text(c)[:40]), "%s takes an item from the reader with ignore_comments=%s (`%s`): the comment "
+                   "items skipped by that call are never given back, so they vanish from the tree -- under one standard only, if the "
+                   "matcher belongs to one grammar" % (q, v, A.text(c)[:60]), m.loc(f, c))
     return r
